@@ -25,6 +25,9 @@ REQ_POST = [(b':method', b'POST'), (b':scheme', b'https'), (b':authority', b'exa
 REQ_HEAD = [(b':method', b'HEAD'), (b':scheme', b'https'), (b':authority', b'example.com'),
             (b':path', b'/h')]
 REQ_CONNECT = [(b':method', b'CONNECT'), (b':authority', b'example.com:443')]
+# the request a peer promises: a DIFFERENT authority than the parent request's
+REQ_PUSHED = [(b':method', b'GET'), (b':scheme', b'https'), (b':authority', b'cdn.example.net'),
+              (b':path', b'/pushed')]
 REQ_HOSTONLY = [(b':method', b'GET'), (b':scheme', b'https'), (b':path', b'/'),
                 (b'host', b'example.com')]
 RESP = [(b':status', b'200'), (b'server', b'x')]
